@@ -23,7 +23,7 @@ type c16sub struct {
 var c16subs = []c16sub{
 	{"\t", "whitespace"}, {"\n", "whitespace"}, {"\r", "whitespace"}, {"\r\n", "whitespace"}, {"  ", "whitespace"}, {" \t\r\n ", "whitespace"},
 	{" -- c\n", "line-comment"}, {"\n--\n", "line-comment"}, {" -- ; \n", "line-comment"}, {" --c\r\n ", "line-comment"},
-	{" /* c */ ", "block-comment"}, {" /**/ ", "block-comment"}, {" /* -- */ ", "block-comment"}, {" /* ' */ ", "block-comment"}, {" /* ; */ ", "block-comment"}, {"\n/* a\nb */\n", "block-comment"}, {" /*/ c */ ", "block-comment"}, {" /***/ ", "block-comment"},
+	{" /* c */ ", "block-comment"}, {" /**/ ", "block-comment"}, {" /* -- */ ", "block-comment"}, {" /* ' */ ", "block-comment"}, {" /* ; */ ", "block-comment"}, {"\n/* a\nb */\n", "block-comment"}, {" /*/ c */ ", "block-comment"}, {" /***/ ", "block-comment"}, {" /****/ ", "block-comment"}, {" /* c ***/ ", "block-comment"}, {" /*** c ***/ ", "block-comment"}, {" /*******/ ", "block-comment"},
 }
 
 func tokClass(t gram.Tok) string {
@@ -93,6 +93,51 @@ func c16gapBody(c *xplore.Ctx) (text string, form string, fs []ev.Finding, skipp
 	if path, a, b := astx.Diff(astx.Denoted, baseAST, got); path != "" {
 		return text, spec.Form, []ev.Finding{{Sig: "gap-not-neutral:ast-changed:" + ev.SigSafe(where), Witness: text,
 			Detail: fmt.Sprintf("gap %q between %q and %q changes the AST at %s: %s vs %s", sub.text, ps[at-1].Text, ps[at].Text, path, a, b), Case: cs, Rank: rank}}, false
+	}
+	return text, spec.Form, nil, false
+}
+
+var c16pairs = [][2]string{{"\r", "\n"}, {"\n", "\r"}, {"\r", " -- c\n"}, {"\r\n", "\r"}, {" -- c\r", "\n"}, {"\r", "\r\n"}}
+
+// c16pairBody: statement x two gaps x a pair of fillers.
+func c16pairBody(c *xplore.Ctx) (text string, form string, fs []ev.Finding, skipped bool) {
+	g := gram.New(c)
+	g.NoValueAlts = true
+	spec := gram.Statement(g)
+	if g.InvalidWhy != "" {
+		return "", spec.Form, nil, true
+	}
+	ps := gram.RenderPieces(nil, spec.Toks)
+	var gaps []int
+	for i := 1; i < len(ps); i++ {
+		if ps[i].GapKind != gram.GapNone {
+			gaps = append(gaps, i)
+		}
+	}
+	if len(gaps) < 2 {
+		return "", spec.Form, nil, true
+	}
+	base := gram.Join(ps)
+	gi := c.Free(len(gaps))
+	gj := c.Free(len(gaps))
+	if gj <= gi {
+		return "", spec.Form, nil, true
+	}
+	pr := c16pairs[c.Free(len(c16pairs))]
+	ps[gaps[gi]].Gap, ps[gaps[gj]].Gap = pr[0], pr[1]
+	text = gram.Join(ps)
+	cs := vecCase{Vector: c.Vector()}
+	baseAST, err := influxql.ParseStatement(base)
+	if err != nil {
+		return text, spec.Form, nil, true
+	}
+	got, err := influxql.ParseStatement(text)
+	where := fmt.Sprintf("%q+%q", pr[0], pr[1])
+	if err != nil {
+		return text, spec.Form, []ev.Finding{{Sig: "two-gaps-not-neutral:rejected:" + ev.SigSafe(where), Witness: text, Detail: fmt.Sprintf("rejected: %v (base %q parses)", err, base), Case: cs, Rank: len(text)}}, false
+	}
+	if path, a, b := astx.Diff(astx.Denoted, baseAST, got); path != "" {
+		return text, spec.Form, []ev.Finding{{Sig: "two-gaps-not-neutral:ast-changed:" + ev.SigSafe(where), Witness: text, Detail: fmt.Sprintf("AST changes at %s: %s vs %s", path, a, b), Case: cs, Rank: len(text)}}, false
 	}
 	return text, spec.Form, nil, false
 }
@@ -192,7 +237,12 @@ func init() {
 		var c vecCase
 		json.Unmarshal(raw, &c)
 		var out []ev.Finding
-		xplore.Replay(func(x *xplore.Ctx) { _, _, out, _ = c16gapBody(x) }, c.Vector)
+		for _, body := range []func(*xplore.Ctx) (string, string, []ev.Finding, bool){c16gapBody, c16pairBody} {
+			func() {
+				defer func() { recover() }()
+				xplore.Replay(func(x *xplore.Ctx) { _, _, f, _ := body(x); out = append(out, f...) }, c.Vector)
+			}()
+		}
 		return out
 	}})
 }
@@ -247,12 +297,13 @@ func c16run(r *ev.Run) {
 			}
 		}
 	})
+	// a line break written as a lone CR at one gap together with LF (or a line comment) at a later gap, and the reverse
+	runGrammar(r, []boundSet{{"struct<=1 x every pair of gaps x {CR then LF, LF then CR, CR then line comment, CRLF then CR}", []int{1, 0, 0}}}, c16pairBody)
 	// every statement form of the grammar model (within one deviation) joined to itself and to a SELECT with the plain separators
 	var poolMu syncMutex
 	pool2 := map[string]bool{}
-	ex := &xplore.Explorer{Bounds: []int{1, 0, 0}, Workers: r.Workers, Deadline: deadlineFor(r.Tier), Body: func(c *xplore.Ctx) {
+	ex := &xplore.Explorer{Bounds: []int{1, 0, 1}, Workers: r.Workers, Deadline: deadlineFor(r.Tier), Body: func(c *xplore.Ctx) {
 		g := gram.New(c)
-		g.NoValueAlts = true
 		spec := gram.Statement(g)
 		if g.InvalidWhy != "" {
 			return
@@ -283,7 +334,15 @@ func c16run(r *ev.Run) {
 			{t, []influxql.Statement{alone}}, {t + ";", []influxql.Statement{alone}}, {t + " ;", []influxql.Statement{alone}}, {";" + t, []influxql.Statement{alone}},
 			{t + ";" + other, []influxql.Statement{alone, oa}}, {other + ";" + t, []influxql.Statement{oa, alone}}, {t + "; " + t, []influxql.Statement{alone, alone}},
 			{t + "\n;\n" + other + ";", []influxql.Statement{alone, oa}},
+			{t + ";" + texts[(i+1)%len(texts)], []influxql.Statement{alone, nil}}, // followed by its neighbour in the pool: usually the same form with other values
 		} {
+			if q.want[len(q.want)-1] == nil {
+				nb, err := influxql.ParseStatement(texts[(i+1)%len(texts)])
+				if err != nil {
+					continue
+				}
+				q.want[len(q.want)-1] = nb
+			}
 			n := r.Eval()
 			r.Trans(int64(len(q.want)))
 			r.State(astx.HashString("Q2|"+q.text), len(q.want) > 1)
